@@ -411,6 +411,24 @@ func C06(p *load.Prog, r *oblig.Run) {
 			}
 		}
 	}
+	if found == 0 && cons != nil {
+		// the test may sit in a boolean helper (datedEntirelyBefore(later, earlier)): facts on every path to the warning
+		env := &descEnv{p: p, params: map[*ssa.Parameter]string{}}
+		want := fmt.Sprintf("%d", cval["EntirelyBefore"])
+		for _, wc := range su.Calls(cons) {
+			cal := wc.Common().StaticCallee()
+			if cal == nil || !strings.Contains(cal.Name(), "EventOrderWarning") {
+				continue
+			}
+			found++
+			okFact := env.holdsAny(wc.Block(), func(f cfact) bool {
+				return f.val && strings.Contains(f.atom, "DateRange.Compare(") && (strings.HasPrefix(f.atom, want+"==") || strings.HasSuffix(f.atom, "=="+want))
+			})
+			r.Check("R06.e", "compare-result test in incorrectEventOrderWarnings", p.Pos(wc.Pos()),
+				"constant the event-order warning tests", okFact,
+				"the warning is built only where a Compare result == EntirelyBefore was established (through a helper predicate)", "no path fact 'Compare(...) == EntirelyBefore' holds where the event-order warning is built")
+		}
+	}
 	if found == 0 {
 		r.Add("R06.e", "compare-result test in incorrectEventOrderWarnings", "-", "consumer test").Unknown("no comparison of a DateRange.Compare result with a constant found in incorrectEventOrderWarnings")
 	}
